@@ -78,6 +78,34 @@ func (k *KeepSvc) Chat(h *hStream) error {
 	}
 }
 
+// trafficOver makes one call per size (and an error call for every third), keeping what comes back
+func trafficOver(e *Env, conn *rpc.Conn, ret *retainer, enc string, desc map[string]interface{}, sizes []int, keep bool, errs *[]error, errWant *[]string) {
+	for i, n := range sizes {
+		req := make([]byte, n)
+		e.Rng.Read(req)
+		req[0] = 'a' + byte(i%20)
+		var res []byte
+		method := []string{"K.Keep", "K.KeepCtx"}[i%2]
+		if err := conn.Call(method, &req, &res); err != nil {
+			e.fail("C01-call-failed", fmt.Sprintf("call failed: %v", err), desc)
+			continue
+		}
+		if keep {
+			ret.keep("reply", res)
+		}
+		if i%3 == 0 {
+			ereq := append([]byte("E"), req[:min(n, 3000)]...)
+			var eres []byte
+			err := conn.Call("K.Keep", &ereq, &eres)
+			if keep && err != nil {
+				*errs = append(*errs, err)
+				*errWant = append(*errWant, "E:"+string(ereq))
+			}
+		}
+		e.count("traffic", fmt.Sprintf("t-%s-%s", enc, lenClass(n)))
+	}
+}
+
 func dataPtr(b []byte) uintptr {
 	if cap(b) == 0 {
 		return 0
@@ -96,6 +124,17 @@ func runBuf(work string) {
 		rounds = 60
 	}
 	sizes := []int{1, 100, 500, 520, 4000, 16000, 65000, 65530, 65600, 70000}
+	// every frame length around the 64K read buffer (the header adds a few bytes that depend on the
+	// encoder and the sequence number): payloads 65500..65545, and around small non-pool buffer sizes
+	var boundary []int
+	for n := 65500; n <= 65545; n++ {
+		boundary = append(boundary, n)
+	}
+	for _, c := range []int{100, 128, 1000, 1024} {
+		for d := -24; d <= 8; d += 2 {
+			boundary = append(boundary, c+d)
+		}
+	}
 	for k := 0; k < rounds; k++ {
 		enc := []string{"", "pb", "code"}[k%3]
 		cliDirect := k%2 == 1
@@ -107,43 +146,33 @@ func runBuf(work string) {
 		srv := rpc.NewServer()
 		srv.SetLogLevel(rpc.OffLogLevel)
 		srv.SetContextBuffer(shared)
-		srv.SetBufferSize([]int{0, 512, 65536}[k%3])
+		bufSize := []int{0, 512, 65536, 100, 1000, 70000}[k%6] // pool classes and sizes between them
+		srv.SetBufferSize(bufSize)
 		srv.RegisterName("K", &KeepSvc{r: ret})
 		go srv.ServeCodec(rpc.NewServerCodec(&rpc.BYTESCodec{}, encoderOf(enc), socket.NewMessages(srvRW, false), false, 0))
 		conn := rpc.NewConnWithCodec(rpc.NewClientCodec(&rpc.BYTESCodec{}, encoderOf(enc), socket.NewMessages(cliRW, false), 0))
 		if cliDirect {
 			conn.SetDirectIO(true)
 		}
-		desc := map[string]interface{}{"encoder": enc, "client_directIO": cliDirect, "context_buffer": shared, "round": k, "seed": e.Seed}
+		desc := map[string]interface{}{"encoder": enc, "client_directIO": cliDirect, "context_buffer": shared, "server_buffer_size": bufSize, "round": k, "seed": e.Seed}
 		var errs []error
 		var errWant []string
-		traffic := func(keep bool) {
-			for i, n := range sizes {
-				req := make([]byte, n)
-				e.Rng.Read(req)
-				req[0] = 'a' + byte(i)
-				var res []byte
-				method := []string{"K.Keep", "K.KeepCtx"}[i%2]
-				if err := conn.Call(method, &req, &res); err != nil {
-					e.fail("C01-call-failed", fmt.Sprintf("call failed: %v", err), desc)
-					continue
-				}
-				if keep {
-					ret.keep("reply", res)
-				}
-				if i%3 == 0 {
-					ereq := append([]byte("E"), req[:min(n, 3000)]...)
-					var eres []byte
-					err := conn.Call("K.Keep", &ereq, &eres)
-					if keep && err != nil {
-						errs = append(errs, err)
-						errWant = append(errWant, "E:"+string(ereq))
+		traffic := func(keep bool) { trafficOver(e, conn, ret, enc, desc, sizes, keep, &errs, &errWant) }
+		traffic(true)
+		// replies and arguments of every length around the buffer boundaries, kept as well
+		{
+			bs := boundary
+			if !e.thorough() { // a third of them per round, all of them over three rounds
+				var part []int
+				for i, n := range boundary {
+					if i%3 == k%3 {
+						part = append(part, n)
 					}
 				}
-				e.count("traffic", fmt.Sprintf("t-%s-%s", enc, lenClass(n)))
+				bs = part
 			}
+			trafficOver(e, conn, ret, enc, desc, bs, true, &errs, &errWant)
 		}
-		traffic(true)
 		// stream messages
 		st, err := conn.NewStream("K.Chat")
 		if err == nil {
@@ -208,6 +237,10 @@ func runBuf(work string) {
 					e.fail("C19-ctx-buffer-use", fmt.Sprintf("context buffer of capacity %d for a %d-byte reply: used=%v", k2, n, used), desc)
 				}
 				cases = append(cases, fmt.Sprintf("BCtx %d %d %s %s %s", k2, n, coqBool(used), coqBool(replyOK), coqBool(tailOK)))
+				// the caller keeps its buffer (reply and canary) and the reply it was handed: later calls
+				// without a context buffer must leave both alone
+				ret.keep("context-buffer", full)
+				ret.keep("reply", res)
 				e.count("ctx-buffer", fmt.Sprintf("ctx-%d-%d", n, d))
 			}
 		}
@@ -258,6 +291,9 @@ func runBuf(work string) {
 			for _, b := range got {
 				rpc.PutBuffer(b)
 			}
+		}
+		if s, ok := stable["context-buffer"]; ok && !s {
+			e.fail("C11-ctx-buffer-written-later", "a caller-supplied context buffer was written after the call it was given to had returned", desc)
 		}
 		for kind, p := range map[string]string{"request-args": "PRequestArgs", "reply": "PReply", "stream-message": "PStreamMessage", "error-text": "PErrorText"} {
 			if s, ok := stable[kind]; ok {
